@@ -101,7 +101,7 @@ PROPOSED_FINDINGS = [
      "class_expr": "r.get('kind')=='wf' and r.get('err')=='dupDecl' and r.get('source_kinds')==['clock','local']",
      "witness": {"design": "clock(): `clk = self.a.get()` in a block whose clock driver is named clk", "emitted": "input clk … integer clk; … clk=a;"},
      "what": "a method-local variable of a transpiled clock() named like the implicit clock port (`clk`) is declared `integer clk;` next to `input clk` and assigned procedurally: the refusal of locals that collide with ports (selfNames) does not know the clock"},
-    {"id": "C03-transpiler-init-remap", "property": "C03", "status": "known", "anchor": "py4hw/transpilation/python2verilog_transpilation.py:603",
+    {"id": "C03-transpiler-init-remap", "property": "C03", "status": "fixed", "commit": "19c507c", "anchor": "py4hw/transpilation/python2verilog_transpilation.py:603",
      "class_expr": "r.get('kind')=='wf' and r.get('err')=='driven' and r.get('why')=='init-remapped-through-attribute'",
      "witness": {"design": "self.din = addIn('start', ..); self.total = addIn('din', ..); self.start = addOut('total', ..)", "emitted": "initial begin din=0; end   (din is an input; total is never initialised)"},
      "what": "the `initial` assignments of the output ports are written with PORT names and then pass through ReplaceWiresAndVariables.visit_VerilogWire, which maps ATTRIBUTE names to port names: when an output port's name is also the attribute name of another port, the initial value is assigned to that other port (an input is driven procedurally)"},
